@@ -3,7 +3,7 @@ import Octo.Spec.JoinSem
 /-!
   C02 driver — JOIN queries through the real binary.
     jn <mode> <opt> <fmt> <kinds> DB <n> (T <ncols> <nrows> <v>…)×n Q <from> <whr> <proj> SQL <hex>
-  from := t<i> | sub <from> <expr> | j (inner|lookup|left|right|full) <from> <from> <expr>
+  from := t<i> | sub <from> <expr> | proj <k> <from> <expr>×k | j (inner|lookup|left|right|full) <from> <from> <expr>
   whr  := - | <expr>        proj := * | P<k> <expr>…        (expressions as in SqlCodec; c<i> is positional)
   output := rows <n> | <row> | …  (rows sorted as text: the order of a join's output depends on the schedule)  or  err
   model = the engine pipeline `runQuery` (plan, optimizer, node machines under a fixed scheduler, consolidation);
@@ -17,6 +17,10 @@ partial def parseFrom : List String → Option (From × List String)
     let (s, r) ← parseFrom rest
     let (w, r) ← parseExpr r
     pure (.sub s w, r)
+  | "proj" :: n :: rest => do
+    let (s, r) ← parseFrom rest
+    let (es, r) ← parseExprs n.toNat! r
+    pure (.proj s es, r)
   | "j" :: k :: rest => do
     let kind ← match k with
       | "inner" => some JKind.inner | "lookup" => some JKind.lookup | "left" => some JKind.left
